@@ -222,6 +222,10 @@ func c13GenURI(t *rapid.T) string {
 	var sb strings.Builder
 	sb.WriteString(rapid.SampledFrom(c13Schemes).Draw(t, "scheme"))
 	sb.WriteString(rapid.SampledFrom(c13Hosts).Draw(t, "host"))
+	if rapid.IntRange(0, 11).Draw(t, "bareAuthority") == 0 {
+		// no path at all: http://ex.org, https://x.y:8080
+		return sb.String()
+	}
 	n := rapid.IntRange(0, 3).Draw(t, "nseg")
 	for i := 0; i < n; i++ {
 		sb.WriteString(rapid.SampledFrom(c13Segs).Draw(t, "seg"))
